@@ -70,6 +70,8 @@ func main() {
 		code = cmdLemma(os.Args[2:])
 	case "check":
 		code = cmdCheck(os.Args[2:])
+	case "gen-sweep":
+		code = cmdGenSweep(os.Args[2:])
 	case "replay":
 		code = cmdReplay(os.Args[2:])
 	default:
